@@ -244,12 +244,24 @@ BAD_MODELS = [
 ]
 
 
-def has_bad_model(v):
+def model_param_status(v):
+    """"bad": contains a tagged object known not to validate (the request must be rejected);
+    "unknown": contains an object tagged with a model name that is neither a known-good nor a
+    known-bad literal (e.g. after a byte mutation): the monitor makes no classification claim;
+    "ok" otherwise.  A tagged object is validated as a whole, so its inside is not visited."""
     if isinstance(v, dict):
-        return v in BAD_MODELS or (v.get("__model__") not in CLASS_NAMES and any(has_bad_model(x) for x in v.values()))
-    if isinstance(v, list):
-        return any(has_bad_model(x) for x in v)
-    return False
+        if isinstance(v.get("__model__"), str) and v["__model__"] in CLASS_NAMES:
+            return "bad" if v in BAD_MODELS else "ok" if v in GOOD_MODELS else "unknown"
+        parts = [model_param_status(x) for x in v.values()]
+    elif isinstance(v, list):
+        parts = [model_param_status(x) for x in v]
+    else:
+        return "ok"
+    return "bad" if "bad" in parts else "unknown" if "unknown" in parts else "ok"
+
+
+def has_bad_model(v):
+    return model_param_status(v) == "bad"
 
 
 CLASS_NAMES = ("Ref", "Image", "Artist", "Album", "Track", "TlTrack", "Playlist", "SearchResult")
@@ -275,7 +287,7 @@ def element_class(j):
     i = j.get("id")
     if isinstance(i, list | dict) or set(j) - KNOWN or has_bad_model(j.get("params")):
         return "invalid_by_model"
-    if isinstance(i, bool):
+    if isinstance(i, bool) or model_param_status(j.get("params")) == "unknown":
         return "grey"
     return "strict"
 
@@ -409,6 +421,8 @@ def monitors(chk, tbl_idx, data, parsed_ok, parsed, outcome, log, case):
             if not (isinstance(doc, dict) and doc.get("id") is None and (doc.get("error") or {}).get("code") == -32600):
                 chk.monitor_failure("batch_shape", {"batch": "empty"}, "empty batch not answered by one -32600", case)
             return
+        if any(isinstance(j, dict) and model_param_status(j.get("params")) == "unknown" for j in parsed):
+            return  # whether such an element is answered depends on pydantic's verdict on the model
         answered = [j for j in parsed if not is_notification(j)]
         rs = doc if isinstance(doc, list) else ([] if doc is None else None)
         if rs is None or len(rs) != len(answered):
